@@ -1,4 +1,5 @@
 #![allow(dead_code)]
+mod asp_ref;
 mod checks;
 mod cli;
 mod dom;
